@@ -32,7 +32,7 @@ ASSUMPTIONS = [
     'by_class/by_target are only read, never written to, by the caller; empty sets left by defaultdict reads are ignored',
     'which letter case a key of by_class/by_target is stored in is not judged (union over case-insensitively equal keys); '
     'None and "" both mean "unnamed" for by_target',
-    'names are ASCII and contain no "*"; case-insensitive = str.casefold() equality',
+    'names contain no "*"; case-insensitive = str.casefold() equality (the pools include names with lower() != casefold())',
     'KeyError is accepted when deleting/popping classname, ValueError when re-classing / clearing worldspawn',
 ]
 LEVEL_TEXT = ('Generated-input search: thousands (quick) to hundreds of thousands (thorough) of random mutation histories '
@@ -49,15 +49,26 @@ def _cases(s: str) -> list[str]:
     return [s, s.title(), s.upper()]
 
 
-NAMES = [''] + [v for b in BASES for v in _cases(b)]              # 19 values, '' first
+# Names whose str.lower() differs from str.casefold() ("case-insensitively" = casefold for these lookups), each in
+# several spellings that are equal under casefold: sharp s, final sigma, the fi ligature, micro sign vs. Greek mu.
+SPECIAL_NAMES = ['Stra\u00dfe', 'STRASSE', 'strasse', '\u039f\u0394\u039f\u03a3', '\u03bf\u03b4\u03bf\u03c2',
+                 '\ufb01nal_relay', 'Final_Relay', '\u00b5_relay', '\u039c_RELAY']
+NAMES = [''] + [v for b in BASES for v in _cases(b)] + SPECIAL_NAMES   # '' first
 CLASSES = ['info_target', 'Info_Target', 'INFO_TARGET', 'func_brush', 'Func_Brush', 'logic_relay',
-           'foo', 'Foo', 'worldspawn', 'WorldSpawn', 'info_null', '']
+           'foo', 'Foo', 'worldspawn', 'WorldSpawn', 'info_null', '',
+           'Stra\u00dfe', 'STRASSE', '\ufb01nal_relay', 'final_relay', '\u00b5_relay', '\u03bc_relay',
+           '\u039f\u0394\u039f\u03a3']
 CKEYS = ['classname', 'ClassName', 'CLASSNAME']
 TKEYS = ['targetname', 'TargetName', 'TARGETNAME']
 OKEYS = ['origin', 'Origin']
 KEYS = CKEYS + TKEYS + TKEYS + CKEYS + OKEYS                      # weighted towards the indexed keys
 SEARCH_PROBES = sorted({n.casefold() for n in NAMES if n} | {c.casefold() for c in CLASSES if c})
-PREFIX_PROBES = ['*', 'f*', 'fo*', 'foo*', 'FOO*', 'b*', 'Ba*', 'info*', 'foo1*']
+PREFIX_PROBES = ['*', 'f*', 'fo*', 'foo*', 'FOO*', 'b*', 'Ba*', 'info*', 'foo1*',
+                 'stras*', 'Stra\u00df*', '\ufb01*', 'FIN*', '\u00b5*', '\u039f\u0394\u039f\u03a3*']
+
+
+def lower_ne_casefold(s: str) -> bool:
+    return s.lower() != s.casefold()
 
 
 def is_mixed(s: str) -> bool:
@@ -330,6 +341,8 @@ def note_index_change(w: World, i: int, ent, key: str, kind: str) -> None:
     if kf not in ('classname', 'targetname'):
         return
     old = ent[kf]
+    if lower_ne_casefold(old) and (kind == 'set' or key in ent):
+        w.flag('name:lower_ne_casefold')
     if kind == 'set':
         if is_mixed(old):
             w.flag('rename_mixed_case' if kf == 'targetname' else 'reclass_mixed_case')
@@ -410,6 +423,8 @@ def op_remove(w: World, a, b, c, d, e):
         if is_mixed(ent['classname']) or is_mixed(ent['targetname']):
             w.flag('remove_mixed_case')
             w.nontrivial = True
+        if lower_ne_casefold(ent['classname']) or lower_ne_casefold(ent['targetname']):
+            w.flag('name:lower_ne_casefold')
         w.flag('remove_inmap')
     else:
         w.flag('remove_detached')
@@ -783,17 +798,19 @@ def _sub(name: str, quick: int, thorough: int, floor: int, must_hit) -> Sub:
 
 SUBCHECKS = [
     _sub('reclass', 1200, 40000, 100, ('rename_mixed_case', 'reclass_mixed_case', 'remove_mixed_case', 'set_detached',
-                                       'op:update')),
-    _sub('delete', 1200, 40000, 100, ('del_indexed', 'pop_indexed', 'clear_inmap', 'del_target_detached', 'clear_detached')),
+                                       'op:update', 'name:lower_ne_casefold')),
+    _sub('delete', 1200, 40000, 100, ('del_indexed', 'pop_indexed', 'clear_inmap', 'del_target_detached', 'clear_detached',
+                                      'name:lower_ne_casefold')),
     _sub('lifecycle', 1000, 30000, 100, ('remove_mixed_case', 'cross_map_copy', 'add_ents_many', 'make_unique_inmap',
-                                         'remove_detached', 'no_classname_entity')),
+                                         'remove_detached', 'no_classname_entity', 'name:lower_ne_casefold')),
     _sub('spawn', 600, 16000, 50, ('spawn_reclass_attempt', 'spawn_rename', 'spawn_del_class',
                                    'spawn_pop_class', 'spawn_clear')),
     _sub('parse', 600, 16000, 50, ('parsed_map_with_ents', 'remove_inmap', 'op:set', 'op:copy')),
     _sub('iterate', 800, 24000, 50, ('iter_mutated_multi', 'iter_by_class', 'iter_by_target', 'iter_search',
                                      'iter_search_prefix')),
     _sub('mixed', 1200, 50000, 100, ('rename_mixed_case', 'del_indexed', 'pop_indexed', 'clear_inmap', 'iter_mutated',
-                                     'cross_map_copy', 'spawn_reclass_attempt', 'parsed_map_with_ents')),
+                                     'cross_map_copy', 'spawn_reclass_attempt', 'parsed_map_with_ents',
+                                     'name:lower_ne_casefold')),
 ]
 
 MATCHERS = {}
